@@ -37,7 +37,7 @@ Proof.
   all: try (match goal with E : String.eqb _ _ = true |- _ => apply String.eqb_eq in E; rewrite E end).
   all: try (destruct a; try discriminate;
             try match goal with E : (_ =? _)%Z = true |- _ => apply Z.eqb_eq in E; rewrite E end;
-            cbn [Z.eqb known]; rewrite ?H0; reflexivity).
+            unfold offset_key; cbn [Z.eqb Z.ltb Z.compare Pos.compare known]; rewrite ?H0; reflexivity).
   all: rewrite ?ER, ?ES, ?ESub; cbn [known knownb call2 call3 String.eqb Ascii.eqb Bool.eqb];
        repeat (apply andb_true_intro; split); auto.
 Qed.
